@@ -56,7 +56,7 @@ def l2_specs(tier):
         add("load_freeze_drop", 6, reduce=True)
         add("handoff", 3, 2, reduce=True)
         add("handoff3", 2, 2, reduce=True)
-        add("handoff_rebuild", 3, 4, reduce=True)
+        add("handoff_rebuild", 2, 2, reduce=True)
         add("static_hash", 6, reduce=True)
         add("static_hash3", 4, 3, reduce=True)
     else:
